@@ -54,6 +54,10 @@ Proof. vm_compute. reflexivity. Qed.
 (* add() has the parameters the model gives it: (self, obj=None, hint=None, force=False, validate=True, **kwargs) *)
 Lemma add_signature_ok : sig_eqb Gen_Members.add_signature modelled_add_signature = true.
 Proof. vm_compute. reflexivity. Qed.
+
+(* the loops of add() are the modelled ones; in particular the loop that compares the hint iterates the candidate list *)
+Lemma hint_loop_over_candidates : hint_loop_okb Gen_Members.add_loops Gen_Members.hint_loops = true.
+Proof. vm_compute. reflexivity. Qed.
 """
 
 WRONG = "no_such_member_xyz"
@@ -276,6 +280,34 @@ def matrix_cases(T, mir):
         for hint in (m["name"], None, WRONG, ""):     # a unique member is chosen whatever the hint
             for h in cells(m["name"], m["container"], hint, a, b):
                 cases.append({"enabled": False, "parent": {"cls": p, "kw": []}, "calls": h})
+    return cases
+
+
+def other_member_hint_cases(T, mir):
+    """fixed, both tiers: for every (parent, child type) with >= 2 candidate members (8 pairs today) and every name of ANOTHER member
+    of the parent (attributes and inherited members included, i.e. all of _get_members() minus the candidates) as hint, forced and
+    unforced: add() must raise and leave the parent unchanged (C10_hint: the hint chooses among the candidates only).
+    One history per hint, so a wrongly stored child cannot disturb the next call."""
+    cases = []
+    for p in mir.order:
+        by = {}
+        for m in mir.members(p):
+            if mir.dt(m) in T.C:
+                by.setdefault(mir.dt(m), []).append(m["name"])
+        for c, cand in sorted(by.items()):
+            if len(cand) < 2:
+                continue
+            base, _ = one_member_variants(T, c)
+            others = []
+            for m in mir.members(p):
+                if m["name"] not in cand and m["name"] not in others:
+                    others.append(m["name"])
+            for h in others:
+                calls = [{"child": {"kind": "obj", "tree": base}, "hint": h, "force": f, "validate": False,
+                          "mark": "matrix:hint-names-another-member"} for f in (False, True)]
+                calls.append({"child": {"kind": "cls", "cls": c, "kw": [], "form": "str"}, "hint": h, "force": False, "validate": False,
+                              "mark": "matrix:hint-names-another-member"})
+                cases.append({"enabled": False, "parent": {"cls": p, "kw": []}, "calls": calls})
     return cases
 
 
@@ -691,6 +723,9 @@ def run(ck):
     ck.extra["related_type_only_pairs"] = {"ancestor": sum(1 for x in related_type_pairs(mir) if x[3] == "ancestor"),
                                            "descendant": sum(1 for x in related_type_pairs(mir) if x[3] == "descendant")}
     fixed_matrix.extend(related)
+    others = other_member_hint_cases(T, mir)
+    ck.extra["hint_names_another_member_histories"] = len(others)
+    fixed_matrix.extend(others)
     cases.extend(fixed_matrix)
     ck.extra["fixed_matrix_histories"] = len(fixed_matrix)
     ck.extra["fixed_matrix_calls"] = sum(len(c_["calls"]) for c_ in fixed_matrix)
